@@ -50,6 +50,17 @@ def export():
         if isinstance(c, type) and issubclass(c, Aggregate) and c is not Aggregate and name == c.__name__ \
                 and name != "ElementList" and name == name.upper():
             classes[name] = c
+    # classes referred to by a declaration but not exported by the package are still part of the schema
+    # (they are then "not found by tag")
+    todo = list(classes.values())
+    while todo:
+        c = todo.pop()
+        for _, d in walk(c):
+            t = getattr(d, "__type__", None)
+            if isinstance(d, Types.SubAggregate) and isinstance(t, type) and issubclass(t, Aggregate) \
+                    and t.__name__ not in classes and t.__name__ == t.__name__.upper():
+                classes[t.__name__] = t
+                todo.append(t)
     types = {}     # key json -> tid
     typelist = []
     schema = {}
@@ -152,6 +163,8 @@ def to_tla(schema, typelist):
 def write(ctx):
     schema, typelist = export()
     ctx.write("SchemaData.tla", to_tla(schema, typelist))
+    import doc_common
+    doc_common.TYPES = typelist
     with open(ctx.work + "/schema.json", "w") as f:
         json.dump({"schema": schema, "types": typelist}, f)
     return schema, typelist
